@@ -72,6 +72,14 @@ def _get_uses_of(node: ast.AST, scope: ast.AST, source: str) -> Iterable[ast.Nam
             yield refnode
 
 
+def _type_params_of(node: ast.AST) -> Mapping[str, Sequence[ast.AST]]:
+    """The type parameters of a generic function or class (python 3.12+), as a keyword argument
+    for the constructor of a copy of it."""
+    if hasattr(node, "type_params"):
+        return {"type_params": node.type_params}
+    return {}
+
+
 def _get_variable_re_pattern(variable) -> str:
     return r"(?<![A-Za-z_\.])" + variable + r"(?![A-Za-z_])"
 
@@ -666,6 +674,7 @@ def align_variable_names_with_convention(
                     decorator_list=node.decorator_list,
                     returns=node.returns,
                     type_comment=node.type_comment,
+                    **_type_params_of(node),
                 )
             elif isinstance(node, ast.AsyncFunctionDef):
                 if node.name == substitute:
@@ -679,6 +688,7 @@ def align_variable_names_with_convention(
                     decorator_list=node.decorator_list,
                     returns=node.returns,
                     type_comment=node.type_comment,
+                    **_type_params_of(node),
                 )
             elif isinstance(node, ast.ClassDef):
                 if node.name == substitute:
@@ -691,6 +701,7 @@ def align_variable_names_with_convention(
                     keywords=node.keywords,
                     body=node.body,
                     decorator_list=node.decorator_list,
+                    **_type_params_of(node),
                 )
             else:
                 logger.error("Renaming not implemented for node {} of type {}", node, type(node))
